@@ -213,6 +213,7 @@ type c18Case struct {
 	Seq      []string `json:"seq,omitempty"`
 	Scenario string   `json:"scenario,omitempty"`
 	Choices  []int    `json:"choices,omitempty"`
+	Many     []int    `json:"many,omitempty"` // [n1, n2] of the many-key pass
 }
 
 func c18Replay(seq []string) (*c18World, string) {
@@ -527,13 +528,16 @@ func c18Explore(r *vlib.Run, sc c18Scenario, bound, maxExecs int) {
 // small fraction of a big map). n1 entries are loaded into one generation, n2 into the next, the limit is chosen
 // so that one pass evicts exactly the first generation; afterwards the survivors are live, hold their values, are
 // served without another load, and the accounted size is their sum.
-func c18ManyKeys(r *vlib.Run) {
+func c18ManyKeys(r *vlib.Run, only []int) {
 	probe := NewCleaner(1<<30, nil)
 	pc := NewCache[int](probe, nil)
 	pc.Get(7, func() (int, int) { return 7, 8 })
 	per := probe.getSize()
 	for _, n1 := range []int{20, 150, 199, 200, 201, 250, 400} {
 		for _, n2 := range []int{1, 10, 19, 20, 21, 22, 40, 60} {
+			if only != nil && (only[0] != n1 || only[1] != n2) {
+				continue
+			}
 			r.Add("evaluations", 1)
 			r.Add("many_key_cases", 1)
 			sig := fmt.Sprintf("many keys: %d entries in the evicted generation, %d survivors", n1, n2)
@@ -551,7 +555,7 @@ func c18ManyKeys(r *vlib.Run) {
 			cl.Rotate()
 			cl.Cleanup(&CleanStat{})
 			if sz := cl.getSize(); sz > cl.SizeLimit() {
-				r.Violation(sig+": the pass leaves the accounted size over the limit", c18Case{}, fmt.Sprintf("%d > %d", sz, cl.SizeLimit()))
+				r.Violation(sig+": the pass leaves the accounted size over the limit", c18Case{Many: []int{n1, n2}}, fmt.Sprintf("%d > %d", sz, cl.SizeLimit()))
 				continue
 			}
 			var live uint64
@@ -559,7 +563,7 @@ func c18ManyKeys(r *vlib.Run) {
 				live += e.size
 			}
 			if acc := cl.getSize(); acc != live {
-				r.Violation(sig+": accounted size != sum of live entries", c18Case{}, fmt.Sprintf("accounted %d, live %d (%d entries in the map)", acc, live, len(c.payload)))
+				r.Violation(sig+": accounted size != sum of live entries", c18Case{Many: []int{n1, n2}}, fmt.Sprintf("accounted %d, live %d (%d entries in the map)", acc, live, len(c.payload)))
 				continue
 			}
 			reloads := 0
@@ -569,11 +573,11 @@ func c18ManyKeys(r *vlib.Run) {
 					continue // evicted by the pass: allowed (the pass may take more than the first generation)
 				}
 				if v := c.Get(uint32(k), func() (int, int) { reloads++; return -1, 8 }); v != 1000+k {
-					r.Violation(sig+": a surviving entry holds another value", c18Case{}, fmt.Sprintf("key %d: %d", k, v))
+					r.Violation(sig+": a surviving entry holds another value", c18Case{Many: []int{n1, n2}}, fmt.Sprintf("key %d: %d", k, v))
 				}
 			}
 			if reloads > 0 {
-				r.Violation(sig+": a live entry was loaded again", c18Case{}, fmt.Sprint(reloads))
+				r.Violation(sig+": a live entry was loaded again", c18Case{Many: []int{n1, n2}}, fmt.Sprint(reloads))
 			}
 			r.Distinct("nontrivial", sig)
 		}
@@ -584,7 +588,9 @@ func TestVerifC18(t *testing.T) {
 	r := vlib.NewRun("C18")
 	var rc c18Case
 	if r.LoadReplay(&rc) {
-		if rc.Seq != nil {
+		if len(rc.Many) == 2 {
+			c18ManyKeys(r, rc.Many)
+		} else if rc.Seq != nil {
 			_, v := c18Replay(rc.Seq)
 			t.Logf("replay %v -> %q", rc.Seq, v)
 			if v != "" {
@@ -615,7 +621,7 @@ func TestVerifC18(t *testing.T) {
 		fmt.Sscanf(s, "%d", &depth)
 	}
 	c18BFS(r, depth)
-	c18ManyKeys(r)
+	c18ManyKeys(r, nil)
 	r.Sample(c18Case{Seq: []string{"newcache", "get:0:2", "get:1:2", "rotate", "release:0", "releasebuckets", "cleanup"}})
 	for _, sc := range c18Scenarios() {
 		c18Explore(r, sc, bound, 3_000_000)
